@@ -1,5 +1,5 @@
 (* Driver for the extracted structure model (C06, C07).  One case per line:
-     <mode> <s-expression of integers>      mode = run | checkmap | pathfns | warnpoint | basedepth | stemfns
+     <mode> <s-expression of integers>      mode = run | checkmap | pathfns | warnpoint | basedepth | stemfns | roots
    tokens are separated by blanks: "(" ")" and decimal integers.  One result s-expression per line.
    All decoding of the case happens inside the extracted Gallina (Structure/Run.v). *)
 open Structure_ex
@@ -69,6 +69,7 @@ let () =
            | "warnpoint" -> warnpoint_sx s
            | "basedepth" -> basedepth_sx s
            | "stemfns" -> stemfns_sx s
+           | "roots" -> roots_sx s
            | _ -> L [I (z_of_int (-2))] in
          let b = Buffer.create 1024 in print b r; print_endline (Buffer.contents b)
        with Failure m -> print_endline ("BAD " ^ m))
